@@ -46,6 +46,8 @@ def cases(shard, tier):
         return
     lens, pat = shard["lens"], shard["pat"]
     variants = ["ragged"] + (["2d", "ragged_from_matrix"] if len(set(lens)) == 1 else [])
+    for g in ("basic", "red", "col", "elem"):
+        yield ["arr", lens, pat, "ragged_from_pending_view", g]
     for v in variants:
         for g in GROUPS:
             if v == "2d" and g in ("colint", "colslice"):
@@ -93,6 +95,12 @@ def _mk(rows, variant, dt=np.int64):
     if variant == "ragged":
         flat = np.array([v for r in rows for v in r], dtype=dt)
         return RunLengthRaggedArray.from_ragged_array(RaggedArray(flat, [len(r) for r in rows]))
+    if variant == "ragged_from_pending_view":
+        # the same rows handed over as a selection that nothing has read yet (reversed storage order, one extra row in front)
+        back = [[7]] + rows[::-1]
+        flat = np.array([v for r in back for v in r], dtype=dt)
+        big = RaggedArray(flat, [len(r) for r in back])
+        return RunLengthRaggedArray.from_ragged_array(big[:0:-1])
     if variant == "2d":
         return RunLength2dArray.from_array(np.array(rows, dtype=dt))
     return RunLengthRaggedArray.from_array(np.array(rows, dtype=dt))
@@ -206,6 +214,15 @@ def check(case, acc):
     elif group == "ufunc":
         for uf in (np.negative, np.square):
             _cmp(acc, uf.__name__, [uf(a).tolist() for a in arr], lambda: uf(mk()))
+        # a float column on integer data: the column must not be cast to the run values' dtype
+        fcv = (np.arange(1, n + 1) + 0.5)[:, None]
+        for un in ("add", "multiply", "less", "subtract"):
+            uf = getattr(np, un)
+            for side in "LR":
+                e = [(uf(a, fcv[i, 0]) if side == "R" else uf(fcv[i, 0], a)).tolist() for i, a in enumerate(arr)]
+                _cmp(acc, f"{un}(float column,{side})", e, lambda: uf(mk(), fcv) if side == "R" else uf(fcv, mk()))
+            e = [(uf(a, 2.5)).tolist() for a in arr]
+            _cmp(acc, f"{un}(float scalar)", e, lambda: uf(mk(), 2.5))
         cv = np.arange(1, n + 1)[:, None]
         for un in UFS:
             uf = getattr(np, un)
